@@ -164,6 +164,76 @@ def replay_family(rep: Report, pest, module: str, consts: dict, driver, label: s
     rep.extra.setdefault("histories", {})[f"{module}[{label}]"] = count
 
 
+def graph_probes(rep: Report, pest, thorough: bool) -> None:
+    """One test per transition (and per operation sequence of length D) from EVERY state of the implementation-shaped
+    model's graph (spec/DeltaGraph.tla): reaches histories far longer than the exhaustive bound."""
+    from pest.stack import Stack  # noqa: PLC0415
+
+    consts = {"MaxItems": 3, "MaxSnaps": 3, "D": 3} if not thorough else {"MaxItems": 4, "MaxSnaps": 3, "D": 4}
+    cfg = write_cfg("DeltaGraph", "Spec", consts, invariants=["Emit"], extra="VIEW view")
+    n_states = n_probes = drift = 0
+    maxpath = 0
+    seen_bad: set[str] = set()
+
+    def apply(s, op, v):
+        if op == "push":
+            s.push(v)
+        else:
+            getattr(s, op)()
+
+    def on_line(line: str) -> None:
+        nonlocal n_states, n_probes, drift, maxpath
+        r = decode_printt(line)
+        n_states += 1
+        maxpath = max(maxpath, len(r["path"]))
+        for probe in r["probes"]:
+            s = Stack()
+            try:
+                for op, v in r["path"]:
+                    apply(s, op, v)
+            except Exception as e:  # noqa: BLE001
+                rep.violation({"object": "DeltaGraph", "path": r["path"], "kind": "history"}, f"DeltaGraph path {r['path']} raised {type(e).__name__}: {e}")
+                return
+            if (list(s.items), list(s.popped), [list(x) for x in s.lengths]) != (r["state"]["items"], r["state"]["popped"], r["state"]["lengths"]):
+                if list(s.items) != r["state"]["items"]:
+                    key = json.dumps(r["path"])
+                    if key not in seen_bad:
+                        seen_bad.add(key)
+                        rep.violation({"object": "DeltaGraph", "ops": r["path"], "expected": r["state"]["items"], "observed": list(s.items), "kind": "history"}, f"Stack after {[o for o, _ in r['path']]} shows {list(s.items)}, model (= full copies) {r['state']['items']}")
+                    return
+                drift += 1  # internal representation differs from the transcription: coverage claim weakened, not a violation
+            n_probes += 1
+            done = []
+            for op, v, want in probe:
+                done.append(op)
+                try:
+                    apply(s, op, v)
+                except Exception as e:  # noqa: BLE001
+                    got = f"raised {type(e).__name__}"
+                else:
+                    got = list(s)
+                if got != want:
+                    ops = [o for o, _ in r["path"]] + done
+                    key = json.dumps(ops)
+                    if key not in seen_bad:
+                        seen_bad.add(key)
+                        rep.violation({"object": "DeltaGraph", "ops": [list(x) for x in r["path"]] + [[o, vv] for o, vv, _ in probe[: len(done)]], "expected": want, "observed": got, "kind": "history"}, f"Stack after {' '.join(ops)} shows {got}, model (= full copies) {want}")
+                    break
+
+    st = run_tlc("DeltaGraph", cfg, on_line=on_line, workers=8, tag="DeltaGraph", timeout=3000, xmx="8g")
+    require_tlc_ok(st, "DeltaGraph")
+    rep.add_tlc(st, f"DeltaGraph {consts}: every state of the encoding's graph (by shape), all operation sequences of length D from each")
+    rep.traces += n_probes
+    rep.evaluations += n_probes * consts["D"]
+    rep.distinct_count += n_probes
+    rep.extra["graph_states"] = n_states
+    rep.extra["graph_probe_sequences"] = n_probes
+    rep.extra["graph_longest_path"] = maxpath
+    rep.extra["model_drift_states"] = drift
+    if drift:
+        print(f"NOTE C09: the real Stack's internal fields differ from the DeltaStack transcription in {drift} probes (model drift; visible behaviour is what is judged)")
+
+
 def run(tier: str) -> int:
     rep = Report("C09", tier)
     rep.distinct = None
@@ -181,6 +251,9 @@ def run(tier: str) -> int:
     st = run_tlc("DeltaStack", cfg, tag="DeltaStack")
     require_tlc_ok(st, "DeltaStack => SnapStack")
     rep.add_tlc(st, "DeltaStack refines SnapStack (RepInv, AssertOK, Refinement)")
+
+    # 1b. one test per transition / short sequence from every state of the encoding's graph
+    graph_probes(rep, pest, thorough)
 
     # 2. spec -> code: all histories to a bound
     n_stack, n_int, n_state = (7, 6, 5) if not thorough else (8, 8, 6)
